@@ -132,17 +132,19 @@ Proof.
   destruct (emit_aentry pol h k gi 0 Nok Hgi) as [_ Es].
   pose proof (erased_next_range pol Hpol) as Hn.
   unfold wf_entry. rewrite Es. cbn [ae_attrs ae_next aentry_of].
-  replace (0 <=? v_attrs h) with true by lia. replace (v_attrs h <? 256) with true by lia.
-  replace (0 <=? erased_next pol) with true by lia. replace (erased_next pol <? 2 ^ 24) with true by lia.
-  replace (rebuilt_size enc16 h k gi <? 2 ^ 16) with true by lia.
+  replace (0 <=? v_attrs h) with true by (clear - Ha; lia).
+  replace (v_attrs h <? 256) with true by (clear - Ha; lia).
+  replace (0 <=? erased_next pol) with true by (clear - Hn; lia).
+  replace (erased_next pol <? 2 ^ 24) with true by (clear - Hn; lia).
+  replace (rebuilt_size enc16 h k gi <? 2 ^ 16) with true by (clear - Sz; lia).
   rewrite Av, ND, Ia, eqb_reflx, Wn, Bc, Nn. cbn [negb andb].
   fold (aentry_of enc16 pol h k gi). rewrite Xo. cbn [negb orb].
   unfold gref_of. destruct (ATTR (v_attrs h) nvar_attr_guid) eqn:AG; cbn [is_inline wf_gref eqb andb].
-  - rewrite Bg. unfold nvar_guid_size. replace (zlen (v_guid h) =? 16) with true by lia. reflexivity.
+  - rewrite Bg. unfold nvar_guid_size. replace (zlen (v_guid h) =? 16) with true by (clear - Lg; lia). reflexivity.
   - destruct gi as [i|]; [|exfalso; apply (Hgi eq_refl eq_refl)].
     destruct Gi as (_ & Bi & _). unfold byte_ok.
-    replace (0 <=? i) with true by lia. replace (i <? zlen table) with true by lia.
-    replace (i <? 256) with true by lia. reflexivity.
+    replace (0 <=? i) with true by (clear - Bi; lia). replace (i <? zlen table) with true by (clear - Bi; lia).
+    replace (i <? 256) with true by (clear - Bi Ht; lia). reflexivity.
 Qed.
 
 Lemma wf_aentries pol table hts gis : pol = 0 \/ pol = 255 -> zlen table <= 255 ->
@@ -191,6 +193,454 @@ Proof.
       replace (Z.max (zlen gstore) (zlen gstore + 1)) with (zlen (gstore ++ [v_guid h]))
         by (rewrite zlen_app; change (zlen [v_guid h]) with 1; lia).
       apply IH. exact Fr.
+Qed.
+
+
+Lemma Forall2_and {A B} (P Q : A -> B -> Prop) l l' :
+  Forall2 P l l' -> Forall2 Q l l' -> Forall2 (fun a b => P a b /\ Q a b) l l'.
+Proof.
+  intros F. induction F as [|a b l l' Pa _ IH]; intros G; [constructor|].
+  inversion G; subst. constructor; auto.
+Qed.
+
+Lemma Forall2_left {A B} (P : A -> Prop) (l : list A) (l' : list B) :
+  Forall P l -> length l = length l' -> Forall2 (fun a _ => P a) l l'.
+Proof.
+  intros F. revert l'. induction F as [|a l Pa _ IH]; intros [|b l'] L; try discriminate; constructor; auto.
+Qed.
+
+Lemma Forall2_impl {A B} (P Q : A -> B -> Prop) l l' :
+  (forall a b, P a b -> Q a b) -> Forall2 P l l' -> Forall2 Q l l'.
+Proof. intros H F. induction F; constructor; auto. Qed.
+
+(* the side conditions give [good] for every chain of the store *)
+Lemma good_all pol s :
+  chains_ok (s_entries s) -> compact_fits enc16 pol s -> reparse_ok dec16 enc16 pol s ->
+  Forall2 (good pol (snd (assign_gidx (heads_tails (s_entries s)) [])))
+          (heads_tails (s_entries s)) (fst (assign_gidx (heads_tails (s_entries s)) [])).
+Proof.
+  intros CO FIT RP.
+  pose proof (heads_tails_spec (s_entries s) CO) as (_ & Khl & Kin).
+  pose proof (assign_gidx_resolves (heads_tails (s_entries s)) []) as RS.
+  pose proof (assign_gidx_length (heads_tails (s_entries s)) []) as GL.
+  unfold compact_fits in FIT. unfold reparse_ok in RP.
+  destruct (assign_gidx (heads_tails (s_entries s)) []) as [gis table]. cbn [fst snd] in *.
+  destruct FIT as (_ & Sz & _).
+  assert (K2 : Forall2 (fun (ht : nvar * nvar) (_ : option Z) =>
+                          head_like (fst ht) (snd ht) /\ zlen (v_guid (fst ht)) = 16)
+                       (heads_tails (s_entries s)) gis).
+  { apply Forall2_left; [|symmetry; exact GL]. apply Forall_forall. intros ht Hht.
+    rewrite Forall_forall in Khl, Kin. split; [apply Khl; exact Hht|].
+    destruct (Kin ht Hht) as [Hh _]. destruct CO as [_ _ _ _ Hplain]. apply (Hplain _ Hh). }
+  pose proof (Forall2_and _ _ _ _ K2 (Forall2_and _ _ _ _ Sz (Forall2_and _ _ _ _ RS RP))) as ALL.
+  eapply Forall2_impl; [|exact ALL].
+  intros [h k] gi ((HL & Lg) & S1 & R1 & R2). cbv zeta in R2. cbn [fst snd] in *.
+  destruct R2 as (A1 & A2 & A3 & A4 & A5 & A6 & A7).
+  destruct HL as (H1 & H2 & H3 & H4).
+  unfold good, head_like. cbn [fst snd].
+  assert (GI : match gi with
+               | Some i => ATTR (v_attrs h) nvar_attr_guid = false /\ 0 <= i < zlen table /\
+                           nth (Z.to_nat i) table zero_guid = v_guid h
+               | None => ATTR (v_attrs h) nvar_attr_guid = true
+               end) by exact R1.
+  tauto.
+Qed.
+
+Lemma assign_gidx_forall (P : bytes -> Prop) hts : forall gstore,
+  Forall P gstore -> Forall (fun ht : nvar * nvar => P (v_guid (fst ht))) hts ->
+  Forall P (snd (assign_gidx hts gstore)).
+Proof.
+  induction hts as [|[h k] r IH]; intros gstore T F; [exact T|].
+  apply Forall_cons_iff in F as [Fh Fr]. cbn [fst] in Fh.
+  cbn [assign_gidx]. destruct (ATTR (v_attrs h) nvar_attr_guid).
+  - specialize (IH gstore T Fr). destruct (assign_gidx r gstore). exact IH.
+  - destruct (gpos (v_guid h) gstore).
+    + specialize (IH gstore T Fr). destruct (assign_gidx r gstore). exact IH.
+    + assert (T' : Forall P (gstore ++ [v_guid h])) by (apply Forall_app; split; auto).
+      specialize (IH _ T' Fr). destruct (assign_gidx r (gstore ++ [v_guid h])). exact IH.
+Qed.
+
+Lemma Forall2_forall_l {A B} (P : A -> Prop) (Q : A -> B -> Prop) l l' :
+  (forall a b, Q a b -> P a) -> Forall2 Q l l' -> Forall P l.
+Proof. intros H F. induction F; constructor; eauto. Qed.
+
+Lemma emit_acompacted pol s :
+  chains_ok (s_entries s) -> compact_fits enc16 pol s -> reparse_ok dec16 enc16 pol s ->
+  emit pol (acompacted enc16 pol s) = s_buf (compacted enc16 pol s).
+Proof.
+  intros CO FIT RP. pose proof (good_all pol s CO FIT RP) as G.
+  unfold acompacted, compacted.
+  destruct (assign_gidx (heads_tails (s_entries s)) []) as [gis table]. cbn [fst snd] in G.
+  unfold emit. cbn [a_entries a_free a_table s_buf].
+  rewrite (emit_aentries pol table _ _ G 0). do 3 f_equal. ring.
+Qed.
+
+Lemma wf_acompacted pol s :
+  chains_ok (s_entries s) -> compact_fits enc16 pol s -> reparse_ok dec16 enc16 pol s ->
+  wf_store pol (acompacted enc16 pol s) = true.
+Proof.
+  intros CO FIT RP. pose proof (good_all pol s CO FIT RP) as G.
+  pose proof (discovered_aentries pol (snd (assign_gidx (heads_tails (s_entries s)) []))
+                (heads_tails (s_entries s)) [] G) as D.
+  assert (TO : table_ok (snd (assign_gidx (heads_tails (s_entries s)) []))).
+  { pose proof (heads_tails_spec (s_entries s) CO) as (_ & _ & Kin).
+    apply assign_gidx_table; [intros g []|].
+    apply Forall_forall. intros ht Hht. rewrite Forall_forall in Kin. destruct (Kin ht Hht) as [Hh _].
+    destruct CO as [_ _ _ _ Hplain]. apply (Hplain _ Hh). }
+  assert (TB : Forall (fun g => bytes_ok g = true) (snd (assign_gidx (heads_tails (s_entries s)) []))).
+  { apply assign_gidx_forall; [constructor|].
+    eapply Forall2_forall_l; [|exact G]. intros ht gi Gd. apply Gd. }
+  unfold compact_fits in FIT. unfold acompacted.
+  destruct (assign_gidx (heads_tails (s_entries s)) []) as [gis table]. cbn [fst snd] in *.
+  destruct FIT as (Hpol & Sz & Tl & Fit & Len).
+  pose proof (emit_aentries pol table _ _ G 0) as EE.
+  pose proof (final_entries_bufs enc16 pol (heads_tails (s_entries s)) gis 0) as Lb.
+  pose proof (sum_sizes_nonneg enc16 pol (heads_tails (s_entries s)) gis 0) as Ls.
+  pose proof (zlen_nonneg table) as Ht0.
+  unfold wf_store, store_len. cbn [a_entries a_free a_table].
+  rewrite (wf_aentries pol table _ _ Hpol Tl G).
+  rewrite <- zlen_emit_entries, EE, Lb. unfold nvar_guid_size in *.
+  change (zlen (@nil bytes)) with 0 in D. rewrite D, Z.eqb_refl.
+  replace ((pol =? 0) || (pol =? 255)) with true by (clear - Hpol; lia).
+  match goal with |- context [?a <? 2 ^ 47] => replace (a <? 2 ^ 47) with true by (clear - Len Fit Ls Ht0; lia) end.
+  replace (zlen table <=? 255) with true by (clear - Tl; lia).
+  match goal with |- context [0 <=? ?a] => replace (0 <=? a) with true by (clear - Len Fit Ls Ht0; lia) end.
+  cbn [andb].
+  assert (FN : first_next_ok pol (aentries_of enc16 pol (heads_tails (s_entries s)) gis) = true).
+  { destruct (heads_tails (s_entries s)) as [|[h k] r]; [reflexivity|]. destruct gis as [|gi gr]; [reflexivity|].
+    cbn [aentries_of first_next_ok aentry_of ae_next ae_attrs].
+    destruct Hpol as [-> | ->]; cbn; apply orb_true_r. }
+  rewrite FN, !andb_true_r.
+  apply forallb_forall. intros g Hg. rewrite Forall_forall in TB. rewrite (TB g Hg).
+  rewrite (TO g Hg). reflexivity.
+Qed.
+
+
+Definition same_var (v h k : nvar) (off : Z) : Prop :=
+  v_guid v = v_guid h /\ v_name v = v_name h /\ content v = content k /\ v_attrs v = v_attrs h /\
+  v_type v = nvar_type_full /\ v_nextoff v = 0 /\ v_sub v = None /\ v_off v = off /\
+  0 <= v_dataoff v <= zlen (v_buf v) /\ v_size v = rebuilt_size enc16 h k (v_gidx v) /\
+  (ATTR (v_attrs h) nvar_attr_guid = true -> v_gidx v = None).
+
+Lemma next_of_erased pol off : pol = 0 \/ pol = 255 -> next_of pol off (erased_next pol) = (nvar_type_full, 0).
+Proof. intros [-> | ->]; reflexivity. Qed.
+
+Lemma content_full a n g nm d :
+  zskipn (nvar_header_size + zlen (gref_bytes g) + zlen (name_bytes nm)) (emit_entry (AFull a n g nm d)) = d.
+Proof.
+  unfold emit_entry. cbn [ae_body ae_next ae_attrs]. rewrite !app_assoc.
+  replace (nvar_header_size + zlen (gref_bytes g) + zlen (name_bytes nm))
+    with (zlen ((emit_header (ae_size (AFull a n g nm d)) n a ++ gref_bytes g) ++ name_bytes nm))
+    by (rewrite !zlen_app, zlen_emit_header; reflexivity).
+  apply zskipn_app_exact.
+Qed.
+
+Lemma interp_aentry pol table h k gi off prev k0 :
+  pol = 0 \/ pol = 255 -> good pol table (h, k) gi ->
+  same_var (fst (interp_entry dec16 pol table (aentry_of enc16 pol h k gi) off prev k0)) h k off /\
+  v_gidx (fst (interp_entry dec16 pol table (aentry_of enc16 pol h k gi) off prev k0)) =
+    (if ATTR (v_attrs h) nvar_attr_guid then None else gi).
+Proof.
+  intros Hpol G. pose proof (good_gi _ _ _ _ G) as Hgi.
+  destruct G as ((_ & _ & ND & _) & Lg & Sz & Gi & Ha & Av & Nok & Bc & Nn & Bg & Xo). cbn [fst snd] in *.
+  destruct (aname_of_spec h Nok) as (_ & _ & Nu & _).
+  destruct (emit_aentry pol h k gi 0 Nok Hgi) as [_ Es].
+  unfold ext_ok in Xo. unfold interp_entry. unfold aentry_of in *. cbn [ae_attrs ae_next] in *.
+  rewrite next_of_erased by auto.
+  destruct (parse_ext (v_attrs h) _ _ nvar_header_size) as [ext|x|x|]; try discriminate.
+  set (e := AFull (v_attrs h) (erased_next pol) (gref_of h gi) (aname_of enc16 h) (content k)) in *.
+  assert (Ldo : 0 <= nvar_header_size + zlen (gref_bytes (gref_of h gi)) + zlen (name_bytes (aname_of enc16 h))
+                <= zlen (emit_entry e)).
+  { rewrite zlen_emit_entry. unfold ae_size, e. cbn [ae_body]. rewrite !zlen_app. unfold nvar_header_size.
+    pose proof (zlen_nonneg (gref_bytes (gref_of h gi))). pose proof (zlen_nonneg (name_bytes (aname_of enc16 h))).
+    pose proof (zlen_nonneg (content k)). lia. }
+  unfold gref_of in *. destruct (ATTR (v_attrs h) nvar_attr_guid) eqn:AG.
+  - cbn [fst]. unfold same_var, content at 1.
+    cbn [v_guid v_name v_attrs v_type v_nextoff v_sub v_off v_dataoff v_buf v_size v_gidx].
+    split; [|reflexivity]. repeat split; auto; try apply Ldo.
+    + unfold e. apply content_full.
+    + rewrite Es. unfold rebuilt_size, gpart_bytes. rewrite AG. reflexivity.
+  - destruct gi as [i|]; [|exfalso; apply (Hgi eq_refl eq_refl)].
+    destruct Gi as (_ & Bi & Ni).
+    cbn [fst]. unfold same_var, content at 1.
+    cbn [v_guid v_name v_attrs v_type v_nextoff v_sub v_off v_dataoff v_buf v_size v_gidx].
+    split; [|reflexivity]. repeat split; auto; try apply Ldo; try discriminate.
+    + unfold e. apply content_full.
+    + intros X. rewrite AG in X. discriminate.
+Qed.
+
+
+Fixpoint vars_rel (off : Z) (hts : list (nvar * nvar)) (gis : list (option Z)) (vs : list nvar) : Prop :=
+  match hts, gis, vs with
+  | [], [], [] => True
+  | (h, k) :: r, gi :: gr, v :: vr =>
+    same_var v h k off /\ v_gidx v = (if ATTR (v_attrs h) nvar_attr_guid then None else gi) /\
+    vars_rel (off + rebuilt_size enc16 h k gi) r gr vr
+  | _, _, _ => False
+  end.
+
+Lemma interp_aentries pol table hts gis : pol = 0 \/ pol = 255 ->
+  Forall2 (good pol table) hts gis -> forall off prev k0,
+  exists vs, fst (interp_entries dec16 pol table (aentries_of enc16 pol hts gis) off prev k0) = prev ++ vs /\
+             vars_rel off hts gis vs.
+Proof.
+  intros Hpol F. induction F as [|[h k] gi r gr G _ IH]; intros off prev k0.
+  - exists []. cbn. rewrite app_nil_r. auto.
+  - cbn [aentries_of interp_entries].
+    destruct (interp_aentry pol table h k gi off prev k0 Hpol G) as [SV GI].
+    pose proof (good_gi _ _ _ _ G) as Hgi.
+    destruct G as (_ & _ & _ & _ & _ & _ & Nok & _). cbn [fst snd] in *.
+    destruct (emit_aentry pol h k gi 0 Nok Hgi) as [_ Es].
+    destruct (interp_entry dec16 pol table (aentry_of enc16 pol h k gi) off prev k0) as [v k1]. cbn [fst] in *.
+    destruct (IH (off + ae_size (aentry_of enc16 pol h k gi)) (prev ++ [v]) k1) as (vs & E & R).
+    exists (v :: vs). rewrite E, <- app_assoc. split; [reflexivity|].
+    cbn [vars_rel]. rewrite <- Es. auto.
+Qed.
+
+Lemma vars_rel_props off hts gis vs : vars_rel off hts gis vs ->
+  Forall (fun ht => head_like (fst ht) (snd ht)) hts ->
+  map triple vs = map (fun ht => triple (snd ht)) hts /\ Forall full_tail vs.
+Proof.
+  revert off gis vs. induction hts as [|[h k] r IH]; intros off gis vs R F.
+  - destruct gis, vs; try contradiction. split; [reflexivity|constructor].
+  - destruct gis as [|gi gr]; [contradiction|]. destruct vs as [|v vr]; [contradiction|].
+    cbn [vars_rel] in R. destruct R as (SV & _ & R).
+    apply Forall_cons_iff in F as [(G & N & ND & _) Fr]. cbn [fst snd] in *.
+    destruct (IH _ _ _ R Fr) as [I1 I2].
+    destruct SV as (E1 & E2 & E3 & E4 & E5 & E6 & E7 & _).
+    split.
+    + cbn [map snd]. rewrite I1. f_equal. unfold triple. rewrite E1, E2, E3, G, N. reflexivity.
+    + constructor; [|exact I2]. unfold full_tail. rewrite E4. auto.
+Qed.
+
+(* the compacted store re-parses: same live variables, only full entries, same table *)
+Theorem compact_reparse pol s :
+  chains_ok (s_entries s) -> compact_fits enc16 pol s -> reparse_ok dec16 enc16 pol s ->
+  exists st2, parse_store dec16 pol (s_buf (compacted enc16 pol s)) = Ok st2 /\
+    live st2 = live s /\ Forall full_tail (s_entries st2) /\
+    s_len st2 = s_len s /\ s_guids st2 = s_guids (compacted enc16 pol s) /\
+    s_buf st2 = s_buf (compacted enc16 pol s).
+Proof.
+  intros CO FIT RP.
+  pose proof (wf_acompacted pol s CO FIT RP) as WF.
+  pose proof (emit_acompacted pol s CO FIT RP) as EM.
+  pose proof (good_all pol s CO FIT RP) as G.
+  pose proof (heads_tails_spec (s_entries s) CO) as (Ksnd & Khl & _).
+  exists (interp dec16 pol (acompacted enc16 pol s)).
+  split; [rewrite <- EM; apply (parse_emit dec16 enc16 codec_rt codec_nz); exact WF|].
+  assert (LenE : zlen (emit pol (acompacted enc16 pol s)) = s_len s).
+  { rewrite EM. destruct (compact_spec enc16 pol 0 s CO FIT) as (st' & C & _ & L & _).
+    rewrite compact_correct in C by auto. injection C as <-. exact L. }
+  pose proof (wf_store_spec _ _ WF) as (Hpol & _ & _ & _ & _ & D & _).
+  unfold interp. pose proof (interp_entries_k dec16 pol (a_table (acompacted enc16 pol s))
+                               (a_entries (acompacted enc16 pol s)) 0 [] 0) as KK.
+  rewrite D in KK.
+  unfold compact_fits in FIT.
+  revert WF EM LenE D KK. unfold acompacted, compacted.
+  destruct (assign_gidx (heads_tails (s_entries s)) []) as [gis table]. cbn [fst snd] in G.
+  cbn [a_entries a_table a_free]. intros WF EM LenE D KK.
+  destruct (interp_aentries pol table _ _ Hpol G 0 [] 0) as (vs & E & R).
+  destruct (interp_entries dec16 pol table (aentries_of enc16 pol (heads_tails (s_entries s)) gis) 0 [] 0)
+    as [es kk]. cbn [fst snd app] in *. subst es kk.
+  destruct (vars_rel_props _ _ _ _ R Khl) as [Tr Ft].
+  cbn [s_entries s_len s_guids s_buf].
+  repeat split.
+  - unfold live. cbn [s_entries]. rewrite tails_full by exact Ft. fold triple. rewrite Tr.
+    rewrite <- Ksnd, map_map. reflexivity.
+  - exact Ft.
+  - exact LenE.
+  - apply zfirstn_all. lia.
+  - exact EM.
+Qed.
+
+
+(* ---------- idempotence ---------- *)
+
+(* two chains that rebuild to the same bytes *)
+Definition ht_same (a b : nvar * nvar) : Prop :=
+  v_attrs (fst a) = v_attrs (fst b) /\ v_guid (fst a) = v_guid (fst b) /\
+  v_name (fst a) = v_name (fst b) /\ content (snd a) = content (snd b).
+
+Lemma assign_gidx_same hts hts' : Forall2 ht_same hts hts' -> forall gstore,
+  assign_gidx hts gstore = assign_gidx hts' gstore.
+Proof.
+  intros F. induction F as [|[h k] [h' k'] r r' (A & G & _ & _) _ IH]; intros gstore; [reflexivity|].
+  cbn [fst snd] in *. cbn [assign_gidx]. rewrite A, G.
+  destruct (ATTR (v_attrs h') nvar_attr_guid); [rewrite IH; reflexivity|].
+  destruct (gpos (v_guid h') gstore); rewrite IH; reflexivity.
+Qed.
+
+Lemma rebuilt_same a b gi : ht_same a b ->
+  gpart_bytes enc16 (fst a) gi = gpart_bytes enc16 (fst b) gi /\
+  rebuilt_size enc16 (fst a) (snd a) gi = rebuilt_size enc16 (fst b) (snd b) gi.
+Proof.
+  intros (A & G & N & C). unfold rebuilt_size, gpart_bytes. rewrite A, G, N, C. auto.
+Qed.
+
+Lemma final_entries_same pol hts hts' : Forall2 ht_same hts hts' -> forall gis offset,
+  map v_buf (final_entries enc16 pol hts gis offset) = map v_buf (final_entries enc16 pol hts' gis offset) /\
+  map v_size (final_entries enc16 pol hts gis offset) = map v_size (final_entries enc16 pol hts' gis offset).
+Proof.
+  intros F. induction F as [|[h k] [h' k'] r r' S _ IH]; intros gis offset; [split; reflexivity|].
+  destruct gis as [|gi gr]; [split; reflexivity|].
+  destruct (rebuilt_same _ _ gi S) as [GP RS]. destruct S as (A & G & N & C). cbn [fst snd] in *.
+  cbn [final_entries map]. rewrite RS. destruct (IH gr (offset + rebuilt_size enc16 h' k' gi)) as [I1 I2].
+  rewrite I1, I2. unfold final_entry. cbn [v_buf v_size]. rewrite RS, GP, A, C. auto.
+Qed.
+
+Lemma sizes_same hts hts' : Forall2 ht_same hts hts' -> forall gis,
+  Forall2 (fun ht gi => rebuilt_size enc16 (fst ht) (snd ht) gi < 2 ^ 16) hts gis ->
+  Forall2 (fun ht gi => rebuilt_size enc16 (fst ht) (snd ht) gi < 2 ^ 16) hts' gis.
+Proof.
+  intros F. induction F as [|a b r r' S _ IH]; intros gis Sz; inversion Sz; subst; constructor.
+  - destruct (rebuilt_same _ _ y S) as [_ <-]. assumption.
+  - apply IH. assumption.
+Qed.
+
+(* entries that are all complete chain ends are their own heads *)
+Lemma pass1_full es : forall m,
+  Forall full_tail es -> StronglySorted ltoff es ->
+  (forall v, In v es -> lookup (v_off v) m = None) ->
+  snd (pass1 es m) = es /\
+  (forall v, In v es -> lookup (v_off v) (fst (pass1 es m)) = Some v) /\
+  (forall X, (forall v, In v es -> X <> v_off v) -> lookup X (fst (pass1 es m)) = lookup X m).
+Proof.
+  induction es as [|v r IH]; intros m F S L.
+  - cbn [pass1 fst snd]. repeat split; auto. intros v [].
+  - apply Forall_cons_iff in F as [(T & N & _) Fr].
+    apply StronglySorted_inv in S as [Sr Sv]. rewrite Forall_forall in Sv.
+    cbn [pass1]. unfold is_valid. rewrite T.
+    replace (is_valid_type nvar_type_full) with true by reflexivity. cbn [negb].
+    rewrite (L v (or_introl eq_refl)). rewrite N. cbn [Z.eqb negb].
+    assert (L' : forall w, In w r -> lookup (v_off w) ((v_off v, v) :: m) = None).
+    { intros w Hw. cbn [lookup]. specialize (Sv w Hw). unfold ltoff in Sv.
+      replace (v_off w =? v_off v) with false by lia. apply L. right. exact Hw. }
+    destruct (IH ((v_off v, v) :: m) Fr Sr L') as (K & Lk & St).
+    destruct (pass1 r ((v_off v, v) :: m)) as [mf keep]. cbn [fst snd] in *.
+    split; [rewrite K; reflexivity|]. split.
+    + intros w [<-|Hw]; [|apply Lk; exact Hw].
+      rewrite St. * cbn [lookup]. rewrite Z.eqb_refl. reflexivity.
+      * intros w Hw. specialize (Sv w Hw). unfold ltoff in Sv. lia.
+    + intros X HX. rewrite St by (intros w Hw; apply HX; right; exact Hw).
+      cbn [lookup]. specialize (HX v (or_introl eq_refl)). replace (X =? v_off v) with false by lia. reflexivity.
+Qed.
+
+Lemma heads_tails_full es : Forall full_tail es -> StronglySorted ltoff es ->
+  heads_tails es = map (fun v => (v, v)) es.
+Proof.
+  intros F S. unfold heads_tails.
+  destruct (pass1_full es [] F S ltac:(intros; reflexivity)) as (K & Lk & _).
+  destruct (pass1 es []) as [m keep]. cbn [fst snd] in *. subst keep.
+  apply map_ext_in. intros v Hv. rewrite (Lk v Hv). reflexivity.
+Qed.
+
+Lemma vars_rel_sorted off hts gis vs : vars_rel off hts gis vs ->
+  Forall2 (fun ht gi => 0 < rebuilt_size enc16 (fst ht) (snd ht) gi) hts gis ->
+  StronglySorted ltoff vs /\ Forall (fun v => off <= v_off v) vs.
+Proof.
+  revert off gis vs. induction hts as [|[h k] r IH]; intros off gis vs R P.
+  - destruct gis, vs; try contradiction. split; constructor.
+  - destruct gis as [|gi gr]; [contradiction|]. destruct vs as [|v vr]; [contradiction|].
+    cbn [vars_rel] in R. destruct R as (SV & _ & R). inversion P as [|? ? ? ? P1 Pr]; subst. cbn [fst snd] in P1.
+    destruct (IH _ _ _ R Pr) as [S1 F1].
+    destruct SV as (_ & _ & _ & _ & _ & _ & _ & Eo & _).
+    split.
+    + constructor; [exact S1|]. rewrite Forall_forall in *. intros w Hw. specialize (F1 w Hw). unfold ltoff. lia.
+    + constructor; [lia|]. rewrite Forall_forall in *. intros w Hw. specialize (F1 w Hw). lia.
+Qed.
+
+Lemma vars_rel_same off hts gis vs : vars_rel off hts gis vs ->
+  Forall2 ht_same (map (fun v => (v, v)) vs) hts.
+Proof.
+  revert off gis vs. induction hts as [|[h k] r IH]; intros off gis vs R.
+  - destruct gis, vs; try contradiction. constructor.
+  - destruct gis as [|gi gr]; [contradiction|]. destruct vs as [|v vr]; [contradiction|].
+    cbn [vars_rel] in R. destruct R as (SV & _ & R). cbn [map]. constructor; [|eapply IH; exact R].
+    destruct SV as (E1 & E2 & E3 & E4 & _). unfold ht_same. cbn [fst snd]. auto.
+Qed.
+
+
+Lemma ht_same_sym l l' : Forall2 ht_same l l' -> Forall2 ht_same l' l.
+Proof.
+  induction 1 as [|a b r r' (A & G & N & C) _ IH]; constructor; auto.
+  unfold ht_same. auto.
+Qed.
+
+Lemma vars_rel_plain pol table off hts gis vs : vars_rel off hts gis vs ->
+  Forall2 (good pol table) hts gis ->
+  Forall (fun v => v_sub v = None /\ 0 <= v_dataoff v <= zlen (v_buf v) /\ zlen (v_guid v) = nvar_guid_size) vs.
+Proof.
+  revert off gis vs. induction hts as [|[h k] r IH]; intros off gis vs R G.
+  - destruct gis, vs; try contradiction. constructor.
+  - destruct gis as [|gi gr]; [contradiction|]. destruct vs as [|v vr]; [contradiction|].
+    cbn [vars_rel] in R. destruct R as (SV & _ & R). inversion G as [|? ? ? ? G1 Gr]; subst.
+    constructor; [|eapply IH; eauto].
+    destruct SV as (E1 & _ & _ & _ & _ & _ & E7 & _ & E9 & _).
+    destruct G1 as (_ & Lg & _). cbn [fst] in Lg. rewrite E1. auto.
+Qed.
+
+Lemma rebuilt_size_pos h k gi : 0 < rebuilt_size enc16 h k gi.
+Proof.
+  unfold rebuilt_size, nvar_header_size.
+  pose proof (zlen_nonneg (gpart_bytes enc16 h gi)). pose proof (zlen_nonneg (content k)). lia.
+Qed.
+
+(* compacting the re-parsed compacted store changes nothing *)
+Theorem compact_idempotent pol d' s :
+  chains_ok (s_entries s) -> compact_fits enc16 pol s -> reparse_ok dec16 enc16 pol s ->
+  exists st2, parse_store dec16 pol (s_buf (compacted enc16 pol s)) = Ok st2 /\
+    compact_store enc16 pol (S d') st2 = Ok (compacted enc16 pol st2) /\
+    s_buf (compacted enc16 pol st2) = s_buf (compacted enc16 pol s).
+Proof.
+  intros CO FIT RP.
+  pose proof (wf_acompacted pol s CO FIT RP) as WF.
+  pose proof (emit_acompacted pol s CO FIT RP) as EM.
+  pose proof (good_all pol s CO FIT RP) as G.
+  pose proof (heads_tails_spec (s_entries s) CO) as (Ksnd & Khl & _).
+  exists (interp dec16 pol (acompacted enc16 pol s)).
+  split; [rewrite <- EM; apply (parse_emit dec16 enc16 codec_rt codec_nz); exact WF|].
+  assert (LenE : zlen (emit pol (acompacted enc16 pol s)) = s_len s).
+  { rewrite EM. destruct (compact_spec enc16 pol 0 s CO FIT) as (st' & C & _ & L & _).
+    rewrite compact_correct in C by auto. injection C as <-. exact L. }
+  pose proof (wf_store_spec _ _ WF) as (Hpol & _ & _ & _ & _ & D & _).
+  pose proof (interp_entries_k dec16 pol (a_table (acompacted enc16 pol s))
+                (a_entries (acompacted enc16 pol s)) 0 [] 0) as KK.
+  rewrite D in KK.
+  assert (FIT0 := FIT). unfold compact_fits in FIT.
+  unfold interp. revert WF EM LenE D KK. unfold acompacted. unfold compacted at 3.
+  destruct (assign_gidx (heads_tails (s_entries s)) []) as [gis table] eqn:AS. cbn [fst snd] in G.
+  cbn [a_entries a_table a_free]. intros WF EM LenE D KK.
+  destruct FIT as (_ & Sz & Tl & Fit & Len).
+  destruct (interp_aentries pol table _ _ Hpol G 0 [] 0) as (vs & E & R).
+  destruct (interp_entries dec16 pol table (aentries_of enc16 pol (heads_tails (s_entries s)) gis) 0 [] 0)
+    as [es kk]. cbn [fst snd app] in *. subst es kk.
+  destruct (vars_rel_props _ _ _ _ R Khl) as [_ Ft].
+  assert (Pos : Forall2 (fun (ht : nvar * nvar) gi => 0 < rebuilt_size enc16 (fst ht) (snd ht) gi)
+                        (heads_tails (s_entries s)) gis).
+  { eapply Forall2_impl; [|exact Sz]. intros ht gi _. apply rebuilt_size_pos. }
+  destruct (vars_rel_sorted _ _ _ _ R Pos) as [Srt _].
+  pose proof (vars_rel_plain pol table _ _ _ _ R G) as Pl.
+  pose proof (vars_rel_same _ _ _ _ R) as Same.
+  pose proof (heads_tails_full vs Ft Srt) as HT.
+  set (st2 := mkStore vs (zfirstn (zlen table) table) (emit pol _) _ _ _).
+  assert (CO2 : chains_ok (s_entries st2)).
+  { cbn [s_entries st2]. rewrite Forall_forall in Ft, Pl. constructor.
+    - exact Srt.
+    - intros l Hl _ Nl. destruct (Ft l Hl) as (_ & N0 & _). congruence.
+    - intros l v Hl _ _ _ Nl. destruct (Ft l Hl) as (_ & N0 & _). congruence.
+    - intros v Hv _ _. destruct (Ft v Hv) as (_ & _ & ND & _). exact ND.
+    - intros v Hv. apply Pl. exact Hv. }
+  assert (FIT2 : compact_fits enc16 pol st2).
+  { unfold compact_fits. cbn [s_entries s_len st2]. rewrite HT.
+    rewrite (assign_gidx_same _ _ Same), AS.
+    destruct (final_entries_same pol _ _ Same gis 0) as [_ Sv]. rewrite Sv, LenE.
+    split; [exact Hpol|]. split; [|auto].
+    apply (sizes_same _ _ (ht_same_sym _ _ Same)). exact Sz. }
+  split; [apply compact_correct; auto|].
+  unfold compacted at 1. cbn [s_entries s_len st2]. rewrite HT.
+  rewrite (assign_gidx_same _ _ Same), AS.
+  destruct (final_entries_same pol _ _ Same gis 0) as [Sb _]. rewrite Sb, LenE.
+  cbn [s_buf]. reflexivity.
 Qed.
 
 End Reparse.
